@@ -16,49 +16,37 @@ variable {α : Type}
 
 /-! ### The source tie -/
 
-def sigOf : Option Exc → Sig
-  | none => .norm
-  | some e => .exc e
-
-/-- The loop of the interpreter is the loop of the model when the bodies agree. -/
-theorem liveLoop_eq (bodyI : St α → Pair → St α × Sig) (bodyK : KWorld α → Pair → KWorld α × Option Exc)
-    (ix : Idx) (p : Pair) (n0 : Nat)
-    (h : ∀ k q, bodyI ⟨k, ix⟩ q = (⟨(bodyK k q).1, ix⟩, sigOf (bodyK k q).2)) :
-    ∀ fuel i k, liveLoop bodyI p n0 fuel i ⟨k, ix⟩ =
-      (⟨(liveK bodyK p n0 fuel i k).1, ix⟩, sigOf (liveK bodyK p n0 fuel i k).2) := by
-  intro fuel
-  induction fuel with
-  | zero => intro i k; rfl
-  | succ f ih =>
-    intro i k
-    unfold liveLoop liveK
-    by_cases hl : (k.w.partners p).length ≠ n0
-    · rw [if_pos hl, if_pos hl]; rfl
-    · rw [if_neg hl, if_neg hl]
-      cases hq : (k.w.partners p)[i]? with
-      | none => rfl
-      | some q =>
-        simp only []
-        rw [h k q]
-        cases hb : bodyK k q with
-        | mk k1 e =>
-          cases e with
-          | none => simp only [sigOf]; exact ih (i + 1) k1
-          | some e => simp only [sigOf]
+/-- The snapshot loop of the interpreter is a fold when the bodies agree and the
+body never returns or raises. -/
+theorem snapLoop_eq (bodyI : St α → Pair → St α × Sig) (bodyK : KWorld α → Pair → KWorld α) (ix : Idx)
+    (h : ∀ k q, ∃ sg, (sg = Sig.norm ∨ sg = Sig.cont) ∧ bodyI ⟨k, ix⟩ q = (⟨bodyK k q, ix⟩, sg)) :
+    ∀ (qs : List Pair) (k : KWorld α), snapLoop bodyI qs ⟨k, ix⟩ = (⟨qs.foldl bodyK k, ix⟩, .norm) := by
+  intro qs
+  induction qs with
+  | nil => intro k; rfl
+  | cons q qs ih =>
+    intro k
+    obtain ⟨sg, hsg, hb⟩ := h k q
+    unfold snapLoop
+    rw [hb]
+    rcases hsg with rfl | rfl <;> simp only [List.foldl_cons] <;> exact ih _
 
 /-- Loop body of `_sync_trait_modified`. -/
 theorem body_modified (rec : Rec α) (p : Pair) (v : AVal α) (ix : Idx) (k : KWorld α) (q : Pair) :
-    interp rec p (.new v) (.ite (.not (.lockedAtPartner true)) (.tryPass true (.act .setPartner)) .skip)
-      (some q) ⟨k, ix⟩ =
-    (⟨(visitK rec (.assign v) k q).1, ix⟩, sigOf (visitK rec (.assign v) k q).2) := by
+    ∃ sg, (sg = Sig.norm ∨ sg = Sig.cont) ∧
+    interp rec p (.new v)
+      (.seq (.ite .partnerDead .cont .skip)
+        (.ite (.not (.lockedAtPartner true)) (.tryPass true (.act .setPartner)) .skip))
+      (some q) ⟨k, ix⟩ = (⟨visitK rec (.assign v) k q, ix⟩, sg) := by
   unfold visitK
   by_cases hd : q.1 ∈ k.dead
-  · simp [interp, evalCond, hd, sigOf]
-  · by_cases hl : q ∈ k.w.locked
-    · simp [interp, evalCond, hd, hl, sigOf]
+  · exact ⟨.cont, Or.inr rfl, by simp [interp, evalCond, hd]⟩
+  · refine ⟨.norm, Or.inl rfl, ?_⟩
+    by_cases hl : q ∈ k.w.locked
+    · simp [interp, evalCond, hd, hl]
     · cases hr : rec k q (.assign v) with
-      | error e => simp [interp, evalCond, doAct, callRec, hd, hl, hr, sigOf]
-      | ok x => obtain ⟨k', r⟩ := x; simp [interp, evalCond, doAct, callRec, hd, hl, hr, sigOf]
+      | error e => simp [interp, evalCond, doAct, callRec, hd, hl, hr]
+      | ok x => obtain ⟨k', r⟩ := x; simp [interp, evalCond, doAct, callRec, hd, hl, hr]
 
 /-- `index` after the normalisation at the head of `_sync_trait_items_modified`. -/
 def normIdx (e : Event α) : Slice :=
@@ -68,18 +56,20 @@ def normIdx (e : Event α) : Slice :=
 
 /-- Loop body of `_sync_trait_items_modified`. -/
 theorem body_items (rec : Rec α) (p : Pair) (e : Event α) (k : KWorld α) (q : Pair) :
+    ∃ sg, (sg = Sig.norm ∨ sg = Sig.cont) ∧
     interp rec p (.event e)
-      (.ite (.not (.lockedAtPartner true))
-        (.tryPass true (.seq (.ite .sameListObject .cont .skip)
-          (.ite (.or .eventAdded .stepIsNone) (.act .partnerSetSlice) (.act .partnerDelSlice)))) .skip)
+      (.seq (.ite .partnerDead .cont .skip)
+        (.ite (.not (.lockedAtPartner true))
+          (.tryPass true (.seq (.ite .sameListObject .cont .skip)
+            (.ite (.or .eventAdded .stepIsNone) (.act .partnerSetSlice) (.act .partnerDelSlice)))) .skip))
       (some q) ⟨k, .slice (normIdx e)⟩ =
-    (⟨(visitK rec (.mutate (eventOp e)) k q).1, .slice (normIdx e)⟩,
-      sigOf (visitK rec (.mutate (eventOp e)) k q).2) := by
+    (⟨visitK rec (.mutate (eventOp e)) k q, .slice (normIdx e)⟩, sg) := by
   unfold visitK
   by_cases hd : q.1 ∈ k.dead
-  · simp [interp, evalCond, hd, sigOf]
-  · by_cases hl : q ∈ k.w.locked
-    · simp [interp, evalCond, hd, hl, sigOf]
+  · exact ⟨.cont, Or.inr rfl, by simp [interp, evalCond, hd]⟩
+  · refine ⟨.norm, Or.inl rfl, ?_⟩
+    by_cases hl : q ∈ k.w.locked
+    · simp [interp, evalCond, hd, hl]
     · have hop : (if (!e.added.isEmpty || (normIdx e).step.isNone) = true
           then Op.setSlice (normIdx e) e.added else Op.delSlice (normIdx e)) = eventOp e := by
         unfold eventOp normIdx
@@ -90,8 +80,8 @@ theorem body_items (rec : Rec α) (p : Pair) (e : Event α) (k : KWorld α) (q :
         simp only [ha, hs, Bool.not_true, Bool.not_false, Bool.or_true, Bool.or_false, Bool.false_eq_true,
           if_true, if_false] at hop <;>
         (cases hr : rec k q (.mutate (eventOp e)) with
-          | error x => simp [interp, evalCond, doAct, callRec, hd, hl, ha, hs, hop, hr, sigOf]
-          | ok x => obtain ⟨k', r⟩ := x; simp [interp, evalCond, doAct, callRec, hd, hl, ha, hs, hop, hr, sigOf])
+          | error x => simp [interp, evalCond, doAct, callRec, hd, hl, ha, hs, hop, hr]
+          | ok x => obtain ⟨k', r⟩ := x; simp [interp, evalCond, doAct, callRec, hd, hl, ha, hs, hop, hr])
 
 theorem partners_lock (w : World α) (p r : Pair) : (w.lock p).partners r = w.partners r := rfl
 
@@ -104,14 +94,10 @@ theorem handlerModified_is_source (rec : Rec α) (k : KWorld α) (p : Pair) (v :
   · simp only [Bool.not_eq_true] at he
     simp only [interp, evalCond, he, doAct, St.setW, partners_lock, Bool.not_false, Bool.not_true, if_true,
       Bool.false_eq_true, if_false]
-    rw [liveLoop_eq _ (visitK rec (.assign v)) (initIdx (.new v)) p _ (body_modified rec p v _)]
-    cases hL : liveK (visitK rec (.assign v)) p (k.w.partners p).length ((k.w.partners p).length + 1) 0
-        { k with w := k.w.lock p } with
-    | mk k2 ex =>
-      cases ex with
-      | some x => simp [sigOf]
-      | none =>
-        by_cases hp : p ∈ k2.w.locked <;> simp [sigOf, hp]
+    rw [snapLoop_eq _ (visitK rec (.assign v)) (initIdx (.new v)) (body_modified rec p v _)]
+    simp only []
+    by_cases hp : p ∈ (List.foldl (visitK rec (.assign v)) { k with w := k.w.lock p } (k.w.partners p)).w.locked <;>
+      simp [hp]
 
 theorem norm_index (rec : Rec α) (p : Pair) (e : Event α) (k : KWorld α) :
     interp rec p (.event e) (.ite (.not .indexIsSlice) (.act .indexToSlice) .skip) none
@@ -129,14 +115,10 @@ theorem handlerItems_is_source (rec : Rec α) (k : KWorld α) (p : Pair) (e : Ev
   · simp only [Bool.not_eq_true] at he
     simp only [interp, evalCond, he, doAct, St.setW, partners_lock, Bool.not_false, Bool.not_true, if_true,
       Bool.false_eq_true, if_false]
-    rw [liveLoop_eq _ (visitK rec (.mutate (eventOp e))) (.slice (normIdx e)) p _ (body_items rec p e)]
-    cases hL : liveK (visitK rec (.mutate (eventOp e))) p (k.w.partners p).length ((k.w.partners p).length + 1) 0
-        { k with w := k.w.lock p } with
-    | mk k2 ex =>
-      cases ex with
-      | some x => simp [sigOf]
-      | none =>
-        by_cases hp : p ∈ k2.w.locked <;> simp [sigOf, hp]
+    rw [snapLoop_eq _ (visitK rec (.mutate (eventOp e))) (.slice (normIdx e)) (body_items rec p e)]
+    simp only []
+    by_cases hp : p ∈ (List.foldl (visitK rec (.mutate (eventOp e))) { k with w := k.w.lock p }
+        (k.w.partners p)).w.locked <;> simp [hp]
 
 /-! ### Conservativity: without armed triggers `cascadeK` is `Sync.cascade` -/
 
@@ -159,58 +141,37 @@ theorem mem_partners {w : World α} {p q : Pair} (h : q ∈ w.partners p) : (⟨
   have : e.src = p := by simpa using hs
   cases e; simp_all
 
-theorem liveK_quiet {π : Type} (rec : Rec α) (rec' : World α → Pair → π → Except Exc (World α × Option α))
+theorem foldK_quiet {π : Type} (rec : Rec α) (rec' : World α → Pair → π → Except Exc (World α × Option α))
     (req : Req α) (y : π)
     (hrec : ∀ k q, Quiet k → rec k q req = lift k (rec' k.w q y))
     (hframe : ∀ w q w' r, q ∉ w.locked → rec' w q y = .ok (w', r) → SameTabs w w')
-    (p : Pair) (P : List Pair) :
-    ∀ fuel i (k : KWorld α), Quiet k → k.w.partners p = P → fuel + i = P.length + 1 →
-      liveK (visitK rec req) p P.length fuel i k =
-        ({ k with w := (P.drop i).foldl (visitPartner rec' y) k.w }, none) := by
-  intro fuel
-  induction fuel with
-  | zero =>
-    intro i k _ _ hi
-    have : P.drop i = [] := List.drop_eq_nil_iff.mpr (by omega)
-    simp [liveK, this]
-  | succ f ih =>
-    intro i k hq hP hi
-    unfold liveK
-    rw [if_neg (by rw [hP]; simp)]
-    rw [hP]
-    cases hg : P[i]? with
-    | none =>
-      have : P.drop i = [] := List.drop_eq_nil_iff.mpr (by
-        rcases List.getElem?_eq_none_iff.mp hg with h; exact h)
-      simp [this]
-    | some q =>
-      have hlt : i < P.length := by
-        rcases List.getElem?_eq_some_iff.mp hg with ⟨h, _⟩; exact h
-      have hdrop : P.drop i = q :: P.drop (i + 1) := by
-        rw [List.drop_eq_getElem_cons hlt]
-        congr 1
-        rcases List.getElem?_eq_some_iff.mp hg with ⟨_, h⟩; exact h
-      have hqP : q ∈ k.w.partners p := by rw [hP]; exact List.mem_of_getElem? hg
-      have hnd : q.1 ∉ k.dead := hq.2 _ (mem_partners hqP)
-      rw [hdrop, List.foldl_cons]
-      simp only [visitK, hnd, if_false]
-      unfold visitPartner
+    (E0 : List Edge) :
+    ∀ (P : List Pair) (k : KWorld α), Quiet k → k.w.edges = E0 → (∀ q ∈ P, q.1 ∉ k.dead) →
+      P.foldl (visitK rec req) k = { k with w := P.foldl (visitPartner rec' y) k.w } := by
+  intro P
+  induction P with
+  | nil => intro k _ _ _; rfl
+  | cons q qs ih =>
+    intro k hq hE hnd
+    have hd : q.1 ∉ k.dead := hnd q (List.mem_cons_self ..)
+    simp only [List.foldl_cons]
+    have hstep : ∃ w', visitK rec req k q = { k with w := w' } ∧ visitPartner rec' y k.w q = w' ∧
+        w'.edges = k.w.edges := by
+      unfold visitK visitPartner
+      simp only [hd, if_false]
       by_cases hl : q ∈ k.w.locked
-      · simp only [hl, if_true]
-        exact ih (i + 1) k hq hP (by omega)
+      · exact ⟨k.w, by simp [hl], by simp [hl], rfl⟩
       · simp only [hl, if_false]
         rw [hrec k q hq]
         cases hr : rec' k.w q y with
-        | error e =>
-          simp only [lift]
-          exact ih (i + 1) k hq hP (by omega)
+        | error e => exact ⟨k.w, rfl, rfl, rfl⟩
         | ok x =>
           obtain ⟨w', r⟩ := x
-          simp only [lift]
-          have hst := hframe k.w q w' r hl hr
-          have := ih (i + 1) { k with w := w' } (hq.of_edges w' hst.1)
-            (by show w'.partners p = P; rw [partners_congr hst.1, hP]) (by omega)
-          rw [this]; rfl
+          exact ⟨w', rfl, rfl, (hframe k.w q w' r hl hr).1⟩
+    obtain ⟨w', h1, h2, h3⟩ := hstep
+    rw [h1, h2]
+    exact ih { k with w := w' } (hq.of_edges w' h3) (by show w'.edges = E0; rw [h3, hE])
+      (fun q' hq' => hnd q' (List.mem_cons_of_mem _ hq'))
 
 theorem handlerK_quiet {π : Type} (rec : Rec α) (rec' : World α → Pair → π → Except Exc (World α × Option α))
     (req : Req α) (y : π)
@@ -221,10 +182,10 @@ theorem handlerK_quiet {π : Type} (rec : Rec α) (rec' : World α → Pair → 
       ({ k with w := ((k.w.partners p).foldl (visitPartner rec' y) (k.w.lock p)).unlock p }, none) := by
   unfold handlerK
   rw [if_neg (by simp [hne])]
-  have hloop := liveK_quiet rec rec' req y hrec hframe p (k.w.partners p) ((k.w.partners p).length + 1) 0
-    { k with w := k.w.lock p } (hq.of_edges _ rfl) rfl (by omega)
-  simp only [partners_lock] at hloop ⊢
-  rw [hloop]
+  have hfold := foldK_quiet rec rec' req y hrec hframe k.w.edges (k.w.partners p) { k with w := k.w.lock p }
+    (hq.of_edges _ rfl) rfl (fun q hq' => hq.2 ⟨p, q⟩ (mem_partners hq'))
+  simp only []
+  rw [hfold]
   have hst := foldl_sameTabs (rec := rec') (y := y) hframe (k.w.partners p) (k.w.lock p)
   have hp : p ∈ ((k.w.partners p).foldl (visitPartner rec' y) (k.w.lock p)).locked := by
     rw [hst.2.1]; simp [World.lock]
@@ -329,5 +290,414 @@ theorem cascadeK_mutate [DecidableEq α] (E : Sync.Env α) (d : Nat) :
           (fun k q hk => ih k q (eventOp e) hk)
           (fun w q w' r => cascade_frame (local_mutate E) d w q (eventOp e) w' r) k p w1 hq he]
         by_cases hne : (w1.partners p).isEmpty = true <;> simp [hne, lift]
+
+/-! ### The lock protocol with partner death during the propagation (repaired F97) -/
+
+/-- Same lock tables, nothing swallowed. -/
+def Calm (k k' : KWorld α) : Prop := k'.w.locked = k.w.locked ∧ k'.swallowed = k.swallowed
+
+theorem Calm.refl (k : KWorld α) : Calm k k := ⟨rfl, rfl⟩
+
+theorem Calm.trans {a b c : KWorld α} (h1 : Calm a b) (h2 : Calm b c) : Calm a c :=
+  ⟨h2.1.trans h1.1, h2.2.trans h1.2⟩
+
+theorem kill_locked (w : World α) (o : Nat) (h : w.locked.any (fun l => decide (l.1 = o)) = false) :
+    (w.kill o).locked = w.locked := by
+  unfold World.kill
+  simp only
+  apply List.filter_eq_self.mpr
+  intro a ha
+  simp only [List.any_eq_false, decide_eq_true_eq] at h
+  simpa using h a ha
+
+/-- Only objects without a lock are collected. -/
+theorem fire_calm (k : KWorld α) (p : Pair) : Calm k (fire k p) := by
+  unfold fire
+  generalize k.doom = L
+  induction L generalizing k with
+  | nil => exact Calm.refl k
+  | cons t ts ih =>
+    simp only [List.foldl_cons]
+    refine Calm.trans ?_ (ih _)
+    split
+    · rename_i h
+      have hb := h.2
+      simp only [isBusy, Bool.or_eq_false_iff] at hb
+      exact ⟨kill_locked k.w t.2 hb.2, rfl⟩
+    · exact Calm.refl k
+
+theorem applyK_locked [DecidableEq α] (E : Sync.Env α) {w w1 : World α} {p : Pair} {req : Req α} {r : Option α}
+    {pay : Option (Payload α)} (h : applyK E w p req = .ok (w1, r, pay)) : w1.locked = w.locked := by
+  cases req with
+  | assign v =>
+    simp only [applyK] at h
+    cases ha : applyAssign E w p v with
+    | error e => rw [ha] at h; cases h
+    | ok x =>
+      obtain ⟨w1', r', y⟩ := x
+      rw [ha] at h
+      cases h
+      exact (local_assign E).locked ha
+  | mutate op =>
+    simp only [applyK] at h
+    cases ha : applyMutateE E w p op with
+    | error e => rw [ha] at h; cases h
+    | ok x =>
+      obtain ⟨w1', r', y⟩ := x
+      rw [ha] at h
+      cases h
+      have : applyMutate E w p op = .ok (w1, r, y.map eventOp) := by rw [applyMutate_eq, ha]
+      exact (local_mutate E).locked this
+
+theorem foldK_calm (rec : Rec α) (req : Req α)
+    (hrec : ∀ k q k' r, q ∉ k.w.locked → rec k q req = .ok (k', r) → Calm k k') :
+    ∀ (P : List Pair) (k : KWorld α), Calm k (P.foldl (visitK rec req) k) := by
+  intro P
+  induction P with
+  | nil => intro k; exact Calm.refl k
+  | cons q qs ih =>
+    intro k
+    simp only [List.foldl_cons]
+    refine Calm.trans ?_ (ih _)
+    unfold visitK
+    split
+    · exact Calm.refl k
+    · split
+      · exact Calm.refl k
+      · rename_i hl
+        split
+        · rename_i k' r hr
+          exact hrec k q k' r hl hr
+        · exact Calm.refl k
+
+/-- A handler started on an unlocked trait returns with the lock tables it
+found, and nothing escapes it — whatever dies meanwhile. -/
+theorem handlerK_calm (rec : Rec α) (req : Req α)
+    (hrec : ∀ k q k' r, q ∉ k.w.locked → rec k q req = .ok (k', r) → Calm k k')
+    (k : KWorld α) (p : Pair) (hp : p ∉ k.w.locked) :
+    Calm k (handlerK rec req k p).1 ∧ (handlerK rec req k p).2 = none := by
+  unfold handlerK
+  split
+  · exact ⟨Calm.refl k, rfl⟩
+  · have hc := foldK_calm rec req hrec (k.w.partners p) { k with w := k.w.lock p }
+    have hin : p ∈ (List.foldl (visitK rec req) { k with w := k.w.lock p } (k.w.partners p)).w.locked := by
+      rw [hc.1]; simp [World.lock]
+    simp only [hin, if_true]
+    refine ⟨⟨?_, hc.2⟩, trivial⟩
+    show (World.unlock _ p).locked = k.w.locked
+    unfold World.unlock
+    simp only
+    rw [hc.1]
+    show List.filter (fun x => decide (x ≠ p)) (p :: k.w.locked) = k.w.locked
+    rw [List.filter_cons_of_neg (by simp)]
+    exact filter_ne_self_of_not_mem hp
+
+theorem cascadeK_calm [DecidableEq α] (E : Sync.Env α) (d : Nat) :
+    ∀ (k : KWorld α) (p : Pair) (req : Req α) (k' : KWorld α) (r : Option α),
+      p ∉ k.w.locked → cascadeK E d k p req = .ok (k', r) → Calm k k' := by
+  induction d with
+  | zero => intro k p req k' r _ h; simp [cascadeK] at h
+  | succ d ih =>
+    intro k p req k' r hp h
+    unfold cascadeK at h
+    cases ha : applyK E k.w p req with
+    | error e => rw [ha] at h; cases h
+    | ok x =>
+      obtain ⟨w1, r1, pay⟩ := x
+      rw [ha] at h
+      have hl1 : w1.locked = k.w.locked := applyK_locked E ha
+      have hk1 : Calm k (if notified k.w w1 p then fire { k with w := w1 } p else { k with w := w1 }) := by
+        split
+        · exact Calm.trans (b := { k with w := w1 }) ⟨hl1, rfl⟩ (fire_calm _ p)
+        · exact ⟨hl1, rfl⟩
+      cases pay with
+      | none =>
+        simp only at h
+        cases h
+        exact hk1
+      | some pl =>
+        simp only at h
+        cases h
+        refine Calm.trans hk1 ?_
+        have hp1 : p ∉ (if notified k.w w1 p then fire { k with w := w1 } p else { k with w := w1 }).w.locked := by
+          rw [hk1.1]; exact hp
+        cases pl with
+        | new v =>
+          obtain ⟨hc, hn⟩ := handlerK_calm (cascadeK E d) (.assign v) (fun k q k' r => ih k q (.assign v) k' r) _ p hp1
+          simp only [runHandlerK, handlerModified]
+          revert hc hn
+          generalize handlerK (cascadeK E d) (.assign v) _ p = res
+          obtain ⟨k2, ex⟩ := res
+          intro hc hn
+          simp only at hn
+          subst hn
+          exact hc
+        | event e =>
+          obtain ⟨hc, hn⟩ := handlerK_calm (cascadeK E d) (.mutate (eventOp e))
+            (fun k q k' r => ih k q (.mutate (eventOp e)) k' r) _ p hp1
+          simp only [runHandlerK, handlerItems]
+          revert hc hn
+          generalize handlerK (cascadeK E d) (.mutate (eventOp e)) _ p = res
+          obtain ⟨k2, ex⟩ := res
+          intro hc hn
+          simp only at hn
+          subst hn
+          exact hc
+
+/-- Unlocked and nothing swallowed so far. -/
+def Rest (n : Nat) (k : KWorld α) : Prop := k.w.locked = [] ∧ k.swallowed = n
+
+theorem finishK_rest [DecidableEq α] (E : Sync.Env α) {n : Nat} (k : KWorld α) (p : Pair) (req : Req α) (d : Nat)
+    (h : Rest n k) : Rest n (finishK k (cascadeK E d k p req)).world := by
+  cases hc : cascadeK E d k p req with
+  | error e => exact h
+  | ok x =>
+    obtain ⟨k', r⟩ := x
+    have := cascadeK_calm E d k p req k' r (by rw [h.1]; simp) hc
+    exact ⟨this.1.trans h.1, this.2.trans h.2⟩
+
+theorem linkOneK_rest [DecidableEq α] (E : Sync.Env α) {n : Nat} (k : KWorld α) (p q : Pair) (h : Rest n k) :
+    Rest n (linkOneK E k p q).world := by
+  unfold linkOneK
+  split
+  · exact h
+  · exact finishK_rest E _ q _ _ ⟨h.1, h.2⟩
+
+theorem stepK_rest [DecidableEq α] (E : Sync.Env α) {n : Nat} (k : KWorld α) (c : CmdK α) (h : Rest n k) :
+    Rest n (stepK E k c).world := by
+  cases c with
+  | arm p o => exact h
+  | cmd c =>
+    have h0 : Rest n { k with busy := cmdObjs c } := h
+    cases c with
+    | assign p v => exact finishK_rest E _ p _ _ h0
+    | mutate p op => exact finishK_rest E _ p _ _ h0
+    | link p q m =>
+      simp only [stepK, linkK]
+      have h1 := linkOneK_rest E _ p q h0
+      split
+      · exact h1
+      · split
+        · exact linkOneK_rest E _ q p h1
+        · exact h1
+    | unlink p q m => exact ⟨by simp only [stepK]; rw [unlink_locked]; exact h.1, h.2⟩
+    | kill o => exact ⟨by simp [stepK, killK, World.kill, h.1], h.2⟩
+
+theorem runK_rest [DecidableEq α] (E : Sync.Env α) {n : Nat} (cs : List (CmdK α)) :
+    ∀ k : KWorld α, Rest n k → Rest n (runK E k cs) := by
+  induction cs with
+  | nil => intro k h; exact h
+  | cons c cs ih => intro k h; exact ih _ (stepK_rest E k c h)
+
+/-! ### Survivors are updated (hub with partners that have no partner but the hub) -/
+
+/-- No table lists a collected object. -/
+def Tidy (k : KWorld α) : Prop := ∀ e ∈ k.w.edges, e.dst.1 ∉ k.dead
+
+/-- What a step may do to the tables: locks stay, links only go, `Tidy` stays. -/
+structure Shrink (k k' : KWorld α) : Prop where
+  locked : k'.w.locked = k.w.locked
+  edges : ∀ e ∈ k'.w.edges, e ∈ k.w.edges
+  tidy : Tidy k → Tidy k'
+
+theorem Shrink.refl (k : KWorld α) : Shrink k k := ⟨rfl, fun _ h => h, id⟩
+
+theorem Shrink.trans {a b c : KWorld α} (h1 : Shrink a b) (h2 : Shrink b c) : Shrink a c :=
+  ⟨h2.locked.trans h1.locked, fun e h => h1.edges e (h2.edges e h), fun h => h2.tidy (h1.tidy h)⟩
+
+theorem killK_shrink (k : KWorld α) (o : Nat) (h : k.w.locked.any (fun l => decide (l.1 = o)) = false) :
+    Shrink k (killK k o) ∧ (killK k o).w.val = k.w.val := by
+  refine ⟨⟨kill_locked k.w o h, ?_, ?_⟩, rfl⟩
+  · intro e he
+    simp only [killK, World.kill] at he
+    exact (List.mem_filter.mp he).1
+  · intro ht e he
+    simp only [killK, World.kill] at he ⊢
+    obtain ⟨hm, hc⟩ := List.mem_filter.mp he
+    simp only [ne_eq, decide_eq_true_eq] at hc
+    split
+    · exact ht e hm
+    · intro hd
+      rcases List.mem_cons.mp hd with h' | h'
+      · exact hc.2 h'
+      · exact ht e hm h'
+
+theorem fire_shrink (k : KWorld α) (p : Pair) : Shrink k (fire k p) ∧ (fire k p).w.val = k.w.val := by
+  unfold fire
+  generalize k.doom = L
+  induction L generalizing k with
+  | nil => exact ⟨Shrink.refl k, rfl⟩
+  | cons t ts ih =>
+    simp only [List.foldl_cons]
+    split
+    · rename_i h
+      have hb := h.2
+      simp only [isBusy, Bool.or_eq_false_iff] at hb
+      obtain ⟨h1, h2⟩ := killK_shrink k t.2 hb.2
+      obtain ⟨h3, h4⟩ := ih (killK k t.2)
+      exact ⟨h1.trans h3, h4.trans h2⟩
+    · exact ih k
+
+theorem foldK_all_locked (rec : Rec α) (req : Req α) :
+    ∀ (P : List Pair) (k : KWorld α), (∀ t ∈ P, t ∈ k.w.locked) → P.foldl (visitK rec req) k = k := by
+  intro P
+  induction P with
+  | nil => intro k _; rfl
+  | cons t ts ih =>
+    intro k h
+    have ht : t ∈ k.w.locked := h t (List.mem_cons_self ..)
+    have : visitK rec req k t = k := by
+      unfold visitK
+      split
+      · rfl
+      · simp
+    simp only [List.foldl_cons, this]
+    exact ih k (fun t' h' => h t' (List.mem_cons_of_mem _ h'))
+
+/-- A handler all of whose partners are locked changes nothing. -/
+theorem handlerK_leaf (rec : Rec α) (req : Req α) (k : KWorld α) (q : Pair) (hq : q ∉ k.w.locked)
+    (hleaf : ∀ t ∈ k.w.partners q, t ∈ k.w.locked) :
+    Shrink k (swallow (handlerK rec req k q)) ∧ (swallow (handlerK rec req k q)).w.val = k.w.val ∧
+      (swallow (handlerK rec req k q)).dead = k.dead := by
+  by_cases he : (k.w.partners q).isEmpty = true
+  · have : handlerK rec req k q = (k, none) := by unfold handlerK; simp [he]
+    rw [this]
+    exact ⟨Shrink.refl k, rfl, rfl⟩
+  · have hin : q ∈ (k.w.lock q).locked := by simp [World.lock]
+    have : handlerK rec req k q = ({ k with w := (k.w.lock q).unlock q }, none) := by
+      unfold handlerK
+      rw [if_neg he]
+      simp only []
+      rw [foldK_all_locked rec req (k.w.partners q) { k with w := k.w.lock q }
+        (fun t ht => List.mem_cons_of_mem _ (hleaf t ht))]
+      simp only [hin, if_true]
+    rw [this]
+    have hl : ((k.w.lock q).unlock q).locked = k.w.locked := by
+      show List.filter (fun x => decide (x ≠ q)) (q :: k.w.locked) = k.w.locked
+      rw [List.filter_cons_of_neg (by simp)]
+      exact filter_ne_self_of_not_mem hq
+    exact ⟨⟨hl, fun _ h => h, fun h => h⟩, rfl, rfl⟩
+
+theorem mem_partners_iff {w : World α} {p q : Pair} : q ∈ w.partners p ↔ (⟨p, q⟩ : Edge) ∈ w.edges := by
+  constructor
+  · exact mem_partners
+  · intro h
+    unfold World.partners
+    exact List.mem_map.mpr ⟨⟨p, q⟩, List.mem_filter.mpr ⟨h, by simp⟩, rfl⟩
+
+/-- A `setattr` on a trait all of whose partners are locked: only its own value
+may change; if it accepts `y` unchanged, it holds `y`. -/
+theorem cascadeK_leaf [DecidableEq α] (E : Sync.Env α) (d : Nat) (k : KWorld α) (q : Pair) (y : AVal α)
+    (hl : q ∉ k.w.locked) (hleaf : ∀ t ∈ k.w.partners q, t ∈ k.w.locked)
+    (k' : KWorld α) (r : Option α) (h : cascadeK E (d + 1) k q (.assign y) = .ok (k', r)) :
+    Shrink k k' ∧ (∀ t, t ≠ q → k'.w.val t = k.w.val t) ∧ (validate E q y = .ok y → k'.w.val q = y) := by
+  unfold cascadeK at h
+  simp only [applyK] at h
+  cases ha : applyAssign E k.w q y with
+  | error e => rw [ha] at h; cases h
+  | ok x =>
+    obtain ⟨w1, r1, pay⟩ := x
+    rw [ha] at h
+    obtain ⟨new, hv, _, hcase⟩ := applyAssign_ok ha
+    rcases hcase with ⟨hsame, hw, hpay⟩ | ⟨hne, hpay, hw⟩
+    · subst hw hpay
+      have hn : notified k.w k.w q = false := by simp [notified]
+      simp only [hn, Option.map_none] at h
+      cases h
+      exact ⟨Shrink.refl k, fun _ _ => rfl, fun h2 => by rw [hv] at h2; cases h2; exact hsame.symm⟩
+    · subst hpay
+      have hn : notified k.w w1 q = true := by subst hw; simp [notified, upd]
+      simp only [hn, if_true, Option.map_some, runHandlerK, handlerModified] at h
+      cases h
+      have hw1 : Shrink k { k with w := w1 } := by subst hw; exact ⟨rfl, fun _ h => h, fun h => h⟩
+      obtain ⟨hf, hfv⟩ := fire_shrink { k with w := w1 } q
+      have hlk : (fire { k with w := w1 } q).w.locked = k.w.locked := by rw [hf.locked]; exact hw1.locked
+      have hql : q ∉ (fire { k with w := w1 } q).w.locked := by rw [hlk]; exact hl
+      have hleaf' : ∀ t ∈ (fire { k with w := w1 } q).w.partners q, t ∈ (fire { k with w := w1 } q).w.locked := by
+        intro t ht
+        rw [hlk]
+        exact hleaf t (mem_partners_iff.mpr (hw1.edges _ (hf.edges _ (mem_partners_iff.mp ht))))
+      obtain ⟨hh, hhv, _⟩ := handlerK_leaf (cascadeK E d) (.assign new) _ q hql hleaf'
+      have hval : (swallow (handlerK (cascadeK E d) (.assign new) (fire { k with w := w1 } q) q)).w.val
+          = upd k.w.val q new := by rw [hhv, hfv]; subst hw; rfl
+      refine ⟨hw1.trans (hf.trans hh), ?_, ?_⟩
+      · intro t ht; rw [hval]; simp [upd, ht]
+      · intro h2; rw [hv] at h2; cases h2; rw [hval]; simp [upd]
+
+/-- Visiting a partner all of whose partners are locked. -/
+theorem visitK_leaf [DecidableEq α] (E : Sync.Env α) (d : Nat) (k : KWorld α) (q : Pair) (y : AVal α)
+    (hleaf : ∀ t ∈ k.w.partners q, t ∈ k.w.locked) :
+    Shrink k (visitK (cascadeK E (d + 1)) (.assign y) k q) ∧
+    (∀ t, t ≠ q → (visitK (cascadeK E (d + 1)) (.assign y) k q).w.val t = k.w.val t) ∧
+    (q.1 ∉ k.dead → q ∉ k.w.locked → validate E q y = .ok y →
+      (visitK (cascadeK E (d + 1)) (.assign y) k q).w.val q = y) := by
+  by_cases hd : q.1 ∈ k.dead
+  · have : visitK (cascadeK E (d + 1)) (.assign y) k q = k := by unfold visitK; simp [hd]
+    rw [this]
+    exact ⟨Shrink.refl k, fun _ _ => rfl, fun h => absurd hd h⟩
+  · by_cases hl : q ∈ k.w.locked
+    · have : visitK (cascadeK E (d + 1)) (.assign y) k q = k := by unfold visitK; simp [hd, hl]
+      rw [this]
+      exact ⟨Shrink.refl k, fun _ _ => rfl, fun _ h => absurd hl h⟩
+    · cases hc : cascadeK E (d + 1) k q (.assign y) with
+      | error e =>
+        have : visitK (cascadeK E (d + 1)) (.assign y) k q = k := by unfold visitK; simp [hd, hl, hc]
+        rw [this]
+        refine ⟨Shrink.refl k, fun _ _ => rfl, fun _ _ hv => ?_⟩
+        -- `validate` accepted, so `cascadeK` cannot have failed
+        exfalso
+        unfold cascadeK at hc
+        simp only [applyK, applyAssign, hv] at hc
+        by_cases hs : y = k.w.val q <;> simp [hs] at hc
+      | ok x =>
+        obtain ⟨k', r⟩ := x
+        have : visitK (cascadeK E (d + 1)) (.assign y) k q = k' := by unfold visitK; simp [hd, hl, hc]
+        rw [this]
+        obtain ⟨h1, h2, h3⟩ := cascadeK_leaf E d k q y hl hleaf k' r hc
+        exact ⟨h1, h2, fun _ _ hv => h3 hv⟩
+
+/-- The hub's loop: every partner still in the table at the end holds `y`. -/
+theorem foldK_survivor [DecidableEq α] (E : Sync.Env α) (d : Nat) (y : AVal α) (p t0 : Pair)
+    (hv0 : validate E t0 y = .ok y) (E0 : List Edge)
+    (hback : ∀ e ∈ E0, e.src ≠ p → e.dst = p) :
+    ∀ (P : List Pair) (k : KWorld α), (∀ l, l ∈ k.w.locked ↔ l = p) → (∀ e ∈ k.w.edges, e ∈ E0) → Tidy k → p ∉ P →
+      Shrink k (P.foldl (visitK (cascadeK E (d + 1)) (.assign y)) k) ∧
+      (∀ t, t ∉ P → (P.foldl (visitK (cascadeK E (d + 1)) (.assign y)) k).w.val t = k.w.val t) ∧
+      ((⟨p, t0⟩ : Edge) ∈ (P.foldl (visitK (cascadeK E (d + 1)) (.assign y)) k).w.edges →
+        (t0 ∈ P ∨ k.w.val t0 = y) → (P.foldl (visitK (cascadeK E (d + 1)) (.assign y)) k).w.val t0 = y) := by
+  intro P
+  induction P with
+  | nil => intro k _ _ _ _; exact ⟨Shrink.refl k, fun _ _ => rfl, fun _ h => h.resolve_left (by simp)⟩
+  | cons q qs ih =>
+    intro k hL hE ht hp
+    have hqp : q ≠ p := fun h => hp (h ▸ List.mem_cons_self ..)
+    have hleaf : ∀ t ∈ k.w.partners q, t ∈ k.w.locked := by
+      intro t hm
+      have he := hE _ (mem_partners_iff.mp hm)
+      have : t = p := hback _ he hqp
+      exact (hL t).mpr this
+    obtain ⟨hs, hfr, hset⟩ := visitK_leaf E d k q y hleaf
+    simp only [List.foldl_cons]
+    obtain ⟨hs2, hfr2, hfin⟩ := ih (visitK (cascadeK E (d + 1)) (.assign y) k q)
+      (fun l => by rw [hs.locked]; exact hL l) (fun e he => hE e (hs.edges e he)) (hs.tidy ht)
+      (fun h => hp (List.mem_cons_of_mem _ h))
+    refine ⟨hs.trans hs2, ?_, ?_⟩
+    · intro t htn
+      rw [hfr2 t (fun h => htn (List.mem_cons_of_mem _ h))]
+      exact hfr t (fun h => htn (h ▸ List.mem_cons_self ..))
+    intro hedge hor
+    apply hfin hedge
+    rcases hor with hmem | hval
+    · rcases List.mem_cons.mp hmem with rfl | h
+      · right
+        have he0 : (⟨p, t0⟩ : Edge) ∈ k.w.edges := hs.edges _ (hs2.edges _ hedge)
+        exact hset (ht _ he0) (fun h => hqp ((hL t0).mp h)) hv0
+      · exact Or.inl h
+    · by_cases h : t0 = q
+      · subst h
+        right
+        have he0 : (⟨p, t0⟩ : Edge) ∈ k.w.edges := hs.edges _ (hs2.edges _ hedge)
+        exact hset (ht _ he0) (fun h => hqp ((hL t0).mp h)) hv0
+      · right; rw [hfr t0 h]; exact hval
 
 end TraitsVerif.Model.SyncLive
